@@ -96,3 +96,5 @@ Definition in_range (gs : list Qc) (x : Qc) : bool :=
   existsb (fun a => Qle_bool (this a) (this x)) gs && existsb (fun b => Qle_bool (this x) (this b)) gs.
 (* fitpack's bispev evaluates outside the data rectangle at the nearest boundary point *)
 Definition clampq (lo hi x : Qc) : Qc := if qlt x lo then lo else if qlt hi x then hi else x.
+Definition clamp_range (gs : list Qc) (x : Qc) : Qc :=          (* gs increasing: first = min, last = max *)
+  if in_range gs x then x else clampq (hd 0%Qc gs) (last gs 0%Qc) x.
